@@ -4,6 +4,8 @@ import AlgopyVerif.Model.Utpm
 import AlgopyVerif.Model.QI
 import AlgopyVerif.Model.Dtype
 import AlgopyVerif.Model.Heap
+import AlgopyVerif.Model.Interp
+import AlgopyVerif.Model.Convert
 import Lean.Data.Json
 /-!
 # Request dispatch of the model driver (JSON codec + operation table)
@@ -153,6 +155,41 @@ def handleK (j : Json) : Except String Json := do
       | "div" => pure divS
       | _ => throw s!"bad-fn {fn}"
     optArr (zipS2 f x y)
+  | "conv" =>
+    let what ← j.getObjValAs? String "what"
+    match what with
+    | "shift" =>
+      let x : NdArray K ← getArr j "x"
+      let s ← j.getObjValAs? Int "s"
+      pure (okArrs [mapS1 (fun _ xs => shiftS s xs) [] x])
+    | "symvec" =>
+      let x : NdArray K ← getArr j "x"
+      let uplo := ((← j.getObjValAs? String "uplo").toList.getD 0 'F')
+      let N := x.shape.getD 2 0
+      let M := (triPairs N).length
+      pure (okArrs [ofFn [utD x, utP x, M] fun i =>
+        match i with
+        | [d, p, k] => co (symvecF N uplo fun r c => x.get [d, p, r, c]) k
+        | _ => 0])
+    | "vecsym" =>
+      let v : NdArray K ← getArr j "x"
+      let N ← j.getObjValAs? Nat "N"
+      pure (okArrs [ofFn [utD v, utP v, N, N] fun i =>
+        match i with
+        | [d, p, r, c] => vecsymF N ((List.range (v.shape.getD 2 0)).map fun k => v.get [d, p, k]) r c
+        | _ => 0])
+    | "base_dirs2utpm" =>
+      let x : NdArray K ← getArr j "x"
+      let V : NdArray K ← getArr j "V"
+      pure (okArrs [baseDirs2utpm x V])
+    | "utpm2base_dirs" =>
+      let u : NdArray K ← getArr j "x"
+      let r := utpm2baseDirs u
+      pure (okArrs [r.1, r.2])
+    | "utpm2dirs" =>
+      let u : NdArray K ← getArr j "x"
+      pure (okArrs [utpm2dirs u])
+    | _ => throw s!"bad-what {what}"
   | "bin" =>
     -- kinds: "uu" UTPM∘UTPM, "us" UTPM∘scalar, "ua" UTPM∘ndarray, "su" scalar∘UTPM, "au" ndarray∘UTPM
     let fn ← j.getObjValAs? String "fn"
@@ -221,7 +258,51 @@ def handleDtype (j : Json) : Except String Json := do
   let refl := (j.getObjValAs? Bool "refl").toOption.getD false
   pure (Json.mkObj [("dt", Json.str (showDT (resultDT aop self kind refl)))])
 
+/-- exact-interpolation requests -/
+def handleInterp (j : Json) : Except String Json := do
+  let what ← j.getObjValAs? String "what"
+  match what with
+  | "multi_indices" =>
+    let N ← j.getObjValAs? Nat "N"
+    let d ← j.getObjValAs? Nat "d"
+    pure (Json.mkObj [("r", toJson ((Interp.multiIndices N d).map (·.toArray)).toArray)])
+  | "gamma" =>
+    let i ← j.getObjValAs? (Array Nat) "i"
+    let jj ← j.getObjValAs? (Array Nat) "j"
+    pure (Json.mkObj [("r", Json.str (showRat (Interp.gamma i.toList jj.toList)))])
+  | "Gamma" =>
+    let N ← j.getObjValAs? Nat "N"
+    let d ← j.getObjValAs? Nat "d"
+    let J := Interp.multiIndices N d
+    pure (Json.mkObj [("r", Json.arr (J.map fun i => Json.arr (J.map fun jj => Json.str (showRat (Interp.gamma i jj))).toArray).toArray)])
+  | "check" =>
+    let N ← j.getObjValAs? Nat "N"
+    let d ← j.getObjValAs? Nat "d"
+    pure (Json.mkObj [("r", Json.bool (Interp.checkIdentity N d))])
+  | "increment" =>
+    let i ← j.getObjValAs? (Array Nat) "i"
+    let k ← j.getObjValAs? (Array Nat) "k"
+    pure (Json.mkObj [("r", toJson (Interp.increment i.toList k.toList).toArray)])
+  | "binomial" =>
+    let i ← j.getObjValAs? (Array String) "i"
+    let jj ← j.getObjValAs? (Array Nat) "j"
+    let ir ← i.toList.mapM fun s => match parseRat s with | some v => pure v | none => throw "bad rat"
+    pure (Json.mkObj [("r", Json.str (showRat (Interp.miBinom ir jj.toList)))])
+  | "pos" =>
+    let i ← j.getObjValAs? (Array Nat) "i"
+    pure (Json.mkObj [("r", toJson (Interp.toPos i.toList).toArray)])
+  | _ => throw s!"bad-what {what}"
+
+def handlePiv (j : Json) : Except String Json := do
+  let piv ← j.getObjValAs? (Array Nat) "piv"
+  let N := piv.size
+  let W := (List.range N).map fun i => ((List.range N).map fun jj => piv2matF piv.toList i jj).toArray
+  pure (Json.mkObj [("swap", toJson (pivSwap piv.toList).toArray), ("W", toJson W.toArray),
+    ("det", toJson (piv2detF piv.toList))])
+
 def handle (j : Json) : Except String Json := do
+  if (j.getObjValAs? String "op").toOption == some "piv" then return (← handlePiv j)
+  if (j.getObjValAs? String "op").toOption == some "interp" then return (← handleInterp j)
   if (j.getObjValAs? String "op").toOption == some "dtype" then return (← handleDtype j)
   let f := (j.getObjValAs? String "f").toOption.getD "Q"
   if f = "QI" then handleK (K := QI) j else handleK (K := Rat) j
